@@ -22,7 +22,7 @@ type C08Script struct{}
 
 func (e *C08Script) Name() string { return "sim.c08-script" }
 func (e *C08Script) Rule() string {
-	return "scripted hold scenarios x seeded (3-6 nodes, assignment mode, maxUnavailable, reconcile order): {rolling update paused, rollout frozen, paused+frozen, canary paused before its first pod, canary paused after its pods, canary auto-paused by pod restarts and resumed by the user} each followed by a node joining and cooperative rounds, then the release (unpause / unfreeze / canary unpause / validate) and convergence; judged: what must not happen while held, what must still happen while held (pods on new nodes when only paused), status.state, resumption within the round bound; non-trivial = distinct (scenario, nodes, mode, maxUnavailable) tuples"
+	return "scripted hold scenarios x seeded (3-6 nodes, assignment mode, maxUnavailable, reconcile order): {rolling update paused, rollout frozen, paused+frozen, canary paused before its first pod, canary paused after its pods, canary auto-paused by pod restarts and resumed by the user, canary paused by annotation before it starts} each followed by a node joining and cooperative rounds, then the release (unpause / unfreeze / canary unpause / validate) and convergence; judged: what must not happen while held, what must still happen while held (pods on new nodes when only paused), status.state, resumption within the round bound; non-trivial = distinct (scenario, nodes, mode, maxUnavailable) tuples"
 }
 func (e *C08Script) Cases(tier string, _ int64) int {
 	if tier == "thorough" {
@@ -36,7 +36,7 @@ func (e *C08Script) Floors(string) map[string]int {
 
 func (e *C08Script) Run(ctx *core.Ctx, idx int) {
 	r := ctx.Rand
-	scen := []string{"paused", "frozen", "paused+frozen", "canary-paused-before-pods", "canary-paused-after-pods", "canary-auto-paused"}[idx%6]
+	scen := []string{"paused", "frozen", "paused+frozen", "canary-paused-before-pods", "canary-paused-after-pods", "canary-auto-paused", "canary-paused-in-advance"}[idx%7]
 	n := 3 + r.Intn(4)
 	aff := r.Intn(2) == 0
 	mu := 1 + r.Intn(2)
@@ -50,7 +50,7 @@ func (e *C08Script) Run(ctx *core.Ctx, idx int) {
 	ed.Spec.Strategy.RollingUpdate.MaxUnavailable = kit.IS(mu)
 	ed.Spec.Strategy.RollingUpdate.SlowStartAdditiveIncrease = kit.IS(2)
 	ed.Spec.Strategy.RollingUpdate.SlowStartIntervalDuration = &metav1.Duration{Duration: time.Second}
-	canary := scen == "canary-paused-before-pods" || scen == "canary-paused-after-pods" || scen == "canary-auto-paused"
+	canary := scen == "canary-paused-before-pods" || scen == "canary-paused-after-pods" || scen == "canary-auto-paused" || scen == "canary-paused-in-advance"
 	if canary {
 		ed.Spec.Strategy.Canary = &v1.ExtendedDaemonSetSpecStrategyCanary{Replicas: kit.IS(1 + r.Intn(2)), ValidationMode: v1.ExtendedDaemonSetSpecStrategyCanaryValidationModeManual}
 		if scen != "canary-auto-paused" && r.Intn(3) == 0 {
@@ -258,6 +258,59 @@ func (e *C08Script) Run(ctx *core.Ctx, idx int) {
 		}
 		if !ok {
 			fail("C08.canary-resumes-on-validation", w.finalOK("ns1", "foo", "B"))
+		}
+	case "canary-paused-in-advance":
+		// the pause annotation is already there when the template changes: the canary starts paused (whatever its
+		// duration, zero included), creates nothing and is not promoted until the user releases and validates it
+		w.S.Mutate(simapi.KindEDS, "ns1", "foo", func(o client.Object) {
+			if o.GetAnnotations() == nil {
+				o.SetAnnotations(map[string]string{})
+			}
+			o.GetAnnotations()[v1.ExtendedDaemonSetCanaryPausedAnnotationKey] = "true"
+		})
+		w.SetTemplate("ns1", "foo", kit.Tpl("B"))
+		rounds(8)
+		w.Advance(20 * time.Minute)
+		rounds(3)
+		ctx.Count("C08.script-holds-judged")
+		if in, _, _ := w.CanaryInProgress("ns1", "foo"); !in {
+			fail("C08.paused-canary-not-promoted", "a canary that was paused before it started has ended (state "+string(state())+")")
+			return
+		}
+		if state() != v1.ExtendedDaemonSetStatusStateCanaryPaused {
+			fail("C08.state-reflects-pause", "state is "+string(state())+" although canary-paused=true was set before the canary started")
+		}
+		if rdy, on := countTpl("B"); rdy > 0 || func() bool {
+			for _, m := range on {
+				if m == "B" {
+					return true
+				}
+			}
+			return false
+		}() {
+			fail("C08.canary-paused-no-create", "canary pods exist although the canary has been paused since before it started")
+		}
+		e0 := kit.GetEDS(w.S, "ns1", "foo")
+		wantCanary := 0
+		if e0.Status.Canary != nil {
+			wantCanary = len(e0.Status.Canary.Nodes)
+		}
+		if err := w.Kubectl("canary-unpause", "ns1", "foo"); err != nil {
+			fail("C08.script-command", "canary-unpause refused: "+err.Error())
+			return
+		}
+		ok := false
+		for i := 0; i < bound; i++ {
+			w.Round(2 * time.Second)
+			if rdy, _ := countTpl("B"); wantCanary > 0 && rdy >= wantCanary && state() == v1.ExtendedDaemonSetStatusStateCanary {
+				ok = true
+				break
+			}
+		}
+		ctx.Count("C08.script-releases-judged")
+		if !ok {
+			rdy, _ := countTpl("B")
+			fail("C08.canary-resumes-on-unpause", fmt.Sprintf("%d Ready canary pods (want %d), state %s", rdy, wantCanary, state()))
 		}
 	case "canary-auto-paused":
 		// the canary pauses itself because a canary pod restarted more often than autoPause.maxRestarts allows
